@@ -170,7 +170,36 @@ func runC18(c *Ctx) {
 			}
 		}
 	}
+	// the id is a function of the three fields AS THEY ARE NOW: edit one object between calls (v2 and v1 objects alike)
+	steps := n / 2
+	a2 := jwt.NewActivationClaims(mustPub(accts[0]))
+	a1 := v1.NewActivationClaims(mustPub(accts[0]))
+	issPool := []string{"", mustPub(signers[0]), mustPub(signers[len(signers)-1])}
+	subPool := []string{"", mustPub(accts[0]), mustPub(accts[len(accts)-1])}
+	for i := 0; i < steps; i++ {
+		switch c.Rng.Intn(4) {
+		case 0:
+			x := issPool[c.Rng.Intn(len(issPool))]
+			a2.Issuer, a1.Issuer = x, x
+		case 1:
+			x := subPool[c.Rng.Intn(len(subPool))]
+			a2.Subject, a1.Subject = x, x
+		case 2:
+			x := shapes[c.Rng.Intn(len(shapes))]
+			if c.Rng.Intn(6) == 0 {
+				x = ""
+			}
+			a2.ImportSubject, a1.ImportSubject = jwt.Subject(x), v1.Subject(x)
+		default:
+			a2.Name, a1.Name = fmt.Sprint("n", i), fmt.Sprint("n", i) // a field the id must not depend on
+		}
+		h, err := a2.HashID()
+		emit(a2.Issuer, a2.Subject, string(a2.ImportSubject), h, err != nil, map[string]interface{}{"stage": "v2 same object, after edit step", "step": i})
+		h, err = a1.HashID()
+		emit(a1.Issuer, a1.Subject, string(a1.ImportSubject), h, err != nil, map[string]interface{}{"stage": "v1 same object, after edit step", "step": i})
+		c.count("same_object_edit_steps")
+	}
 	w.flush()
 	c.sum.DistinctNontriv = len(distinct)
-	c.sum.Rule = "activations with every granted-subject shape (literal, inner/trailing/leading wildcard, '>' alone, '_' tokens) and random other fields, two per shape differing in everything but (issuer, subject, granted subject): v1 encode -> v1 HashID, v2 decode -> v2 HashID, v2 re-encode -> HashID; in-memory empty-field refusals; non-trivial = distinct granted subject"
+	c.sum.Rule = "one v2 and one v1 object edited field by field with HashID after every step; activations with every granted-subject shape (literal, inner/trailing/leading wildcard, '>' alone, '_' tokens) and random other fields, two per shape differing in everything but (issuer, subject, granted subject): v1 encode -> v1 HashID, v2 decode -> v2 HashID, v2 re-encode -> HashID; in-memory empty-field refusals; non-trivial = distinct granted subject"
 }
